@@ -789,6 +789,10 @@ pub(crate) trait Events<'de> {
     /// - Lookahead logic (merge, container boundaries, option/unit handling).
     fn peek(&mut self) -> Result<Option<&Ev<'de>>, Error>;
 
+    /// Number of events taken with `next` so far: a measure of progress, by which a sequence
+    /// notices an element whose `Deserialize` impl read nothing.
+    fn taken(&self) -> u64;
+
     /// Last location that `next` or `peek` has observed.
     ///
     /// Used by:
@@ -911,6 +915,10 @@ impl<'a> Events<'a> for ReplayEvents<'a> {
         Ok(self.buf.get(self.idx))
     }
 
+    fn taken(&self) -> u64 {
+        self.idx as u64
+    }
+
     fn last_location(&self) -> Location {
         let last = self.idx.saturating_sub(1);
         self.buf
@@ -928,6 +936,34 @@ impl<'a> Events<'a> for ReplayEvents<'a> {
             .map(|e| e.location())
             .unwrap_or_else(|| self.last_location())
     }
+}
+
+/// Skip exactly one YAML node (scalar/sequence/mapping) in the event stream.
+fn skip_one_node<'de>(ev: &mut dyn Events<'de>) -> Result<(), Error> {
+    let mut depth; // assigned later
+    match ev.next()? {
+        Some(Ev::Scalar { .. }) => return Ok(()),
+        Some(Ev::SeqStart { .. }) | Some(Ev::MapStart { .. }) => depth = 1,
+        Some(Ev::SeqEnd { location }) | Some(Ev::MapEnd { location }) => {
+            return Err(Error::UnexpectedContainerEndWhileSkippingNode { location });
+        }
+        Some(Ev::Taken { location }) => {
+            return Err(Error::unexpected("consumed event").with_location(location));
+        }
+        None => return Err(Error::eof().with_location(ev.last_location())),
+    }
+    while depth != 0 {
+        match ev.next()? {
+            Some(Ev::SeqStart { .. }) | Some(Ev::MapStart { .. }) => depth += 1,
+            Some(Ev::SeqEnd { .. }) | Some(Ev::MapEnd { .. }) => depth -= 1,
+            Some(Ev::Scalar { .. }) => {}
+            Some(Ev::Taken { location }) => {
+                return Err(Error::unexpected("consumed event").with_location(location));
+            }
+            None => return Err(Error::eof().with_location(ev.last_location())),
+        }
+    }
+    Ok(())
 }
 
 /// The streaming Serde deserializer.
@@ -1933,6 +1969,7 @@ impl<'de, 'e> de::Deserializer<'de> for YamlDeserializer<'de, 'e> {
                 // The peek borrow is now released, so it's safe to query other cursor state.
                 let reference_location = self.ev.reference_location();
                 let _missing_field_guard = MissingFieldLocationGuard::new(reference_location);
+                let taken_before = self.ev.taken();
 
                 #[cfg(any(feature = "garde", feature = "validator"))]
                 {
@@ -1962,14 +1999,24 @@ impl<'de, 'e> de::Deserializer<'de> for YamlDeserializer<'de, 'e> {
 
                         recorder.current = prev;
                         self.idx += 1;
+                        if res.is_ok() && self.ev.taken() == taken_before {
+                            skip_one_node(self.ev)?;
+                        }
                         return res;
                     }
                 }
 
                 let de = YamlDeserializer::new(self.ev, self.cfg);
-                seed.deserialize(de).map(Some).map_err(|e| {
+                let res = seed.deserialize(de).map(Some).map_err(|e| {
                     attach_alias_locations_if_missing(e, reference_location, defined_location)
-                })
+                });
+                // An element whose `Deserialize` impl read nothing has left its node where it
+                // was: step over it, or the same node would be offered as the next element for
+                // ever.
+                if res.is_ok() && self.ev.taken() == taken_before {
+                    skip_one_node(self.ev)?;
+                }
+                res
             }
         }
 
@@ -2113,30 +2160,7 @@ impl<'de, 'e> de::Deserializer<'de> for YamlDeserializer<'de, 'e> {
             /// Used by:
             /// - `DuplicateKeyPolicy::FirstWins` to discard a later value.
             fn skip_one_node(&mut self) -> Result<(), Error> {
-                let mut depth; // assigned later
-                match self.ev.next()? {
-                    Some(Ev::Scalar { .. }) => return Ok(()),
-                    Some(Ev::SeqStart { .. }) | Some(Ev::MapStart { .. }) => depth = 1,
-                    Some(Ev::SeqEnd { location }) | Some(Ev::MapEnd { location }) => {
-                        return Err(Error::UnexpectedContainerEndWhileSkippingNode { location });
-                    }
-                    Some(Ev::Taken { location }) => {
-                        return Err(Error::unexpected("consumed event").with_location(location));
-                    }
-                    None => return Err(Error::eof().with_location(self.ev.last_location())),
-                }
-                while depth != 0 {
-                    match self.ev.next()? {
-                        Some(Ev::SeqStart { .. }) | Some(Ev::MapStart { .. }) => depth += 1,
-                        Some(Ev::SeqEnd { .. }) | Some(Ev::MapEnd { .. }) => depth -= 1,
-                        Some(Ev::Scalar { .. }) => {}
-                        Some(Ev::Taken { location }) => {
-                            return Err(Error::unexpected("consumed event").with_location(location));
-                        }
-                        None => return Err(Error::eof().with_location(self.ev.last_location())),
-                    }
-                }
-                Ok(())
+                skip_one_node(self.ev)
             }
 
             /// Deserialize a recorded key using a temporary `ReplayEvents`.
